@@ -156,7 +156,15 @@ def _msg_req(m):
 
 
 def _msg_resp(m):
-    return ("resp", m.status, tuple(P.norm_fields(m.headers)), m.body, m.complete)
+    fields = P.norm_fields(m.headers)
+    body = m.body
+    if m.status >= 400 and (m.get(b"server") or b"").startswith(b"mitmproxy"):
+        # mitmproxy's own error page quotes the flow's error text, which may say how many bytes had arrived:
+        # same normalisation as for flow.error (_err_class)
+        mm = re.search(rb"<p>(.*?)</p>", body, re.S)
+        body = _err_class(mm.group(1).decode("latin1")).encode() if mm else body
+        fields = [(n, v) for n, v in fields if n.lower() != b"content-length"]
+    return ("resp", m.status, tuple(fields), body, m.complete)
 
 
 def _err_class(e):
